@@ -274,7 +274,7 @@ impl Check for C17 {
         // ---- (1) existence: plan vs satisfier with the same capabilities (dummy tx, real sigs)
         let scripts = d.scripts().map_err(|e| Failure { sig: "mirror-encode".into(), msg: e })?;
         let all_world = |lock: u32, seq: u32| -> World {
-            let mut w = World { keys: BTreeSet::new(), preimages: keys::u().preimages.iter().copied().collect(), lock_time: lock, sequence: seq };
+            let mut w = World { keys: BTreeSet::new(), preimages: keys::u().preimages.iter().copied().collect(), lock_time: lock, sequence: seq, tx_version: 2 };
             for k in &uniq {
                 if let Ok(kb) = key_bytes(k, ctx) {
                     if let Some(x) = keys::xonly_of(&kb) {
